@@ -8,7 +8,8 @@ package genesis
 // boundary-heavy: fractional / integral / zero / huge min gas price, base fee on / just above / far above / below the
 // floor trunc(min gas price), blocks executed afterwards so that EndBlock has applied its own clamp; export right after
 // InitChain, right after the deploying block, or several blocks later; chain B with its own initial height, consensus
-// params and chain id), then:  real ExportAppStateAndValidators(A)  ->  fresh NewEvermint + real InitChain = B  ->
+// params and chain id; the account environment of the custom modules' addresses varied by transactions and by the genesis
+// document, see env_test.go), then:  real ExportAppStateAndValidators(A)  ->  fresh NewEvermint + real InitChain = B  ->
 // the custom modules' stores of A and B compared entry by entry (oracle)  ->  real export of B compared with
 // the first export (oracle).  The model gets the raw store content of A and must predict the exported document,
 // B's store content and B's export.
@@ -419,7 +420,8 @@ func TestDriverGenesis(t *testing.T) {
 	rng := NewRng(seed)
 	side := NewSidecar("genesis", seed,
 		"case = (cpc genesis flags, initial height of A, generated history of 0-14 operations on chain A, params of the three modules set through MsgUpdateParams with boundary-heavy fee-market values, export right after InitChain / right after the deploying block / 1-4 blocks later) -> export -> fresh app B by InitChain (own initial height, consensus params, chain id) -> stores and every params field compared -> second export; "+
-			"GImport cases = import of a document with each flag combination and of fee-market documents (fractional min gas price, base fee below / on / above the floor, negative values); "+
+			"histories and genesis documents also vary the ACCOUNT ENVIRONMENT of the custom modules' addresses (bank sends of every denomination and EVM value transfers to precompile / module / predicted-contract / contract addresses; accounts of every type and the cpc module account's sequence written into chain A's genesis); "+
+			"GImport cases = import of a document with each flag combination, of fee-market documents (fractional min gas price, base fee below / on / above the floor, negative values) and of 11 account environments x 4 flag combinations; "+
 			"non-trivial = the state holds at least one contract with storage, or a precompile / allowance / proof / code-less storage, or params differing from the defaults, i.e. something that can be lost; distinct by configuration and operation sequence")
 	cases := NewCases(dir, "From Evm Require Import Genesis CorrGenesis.", "genesis_mismatches")
 	d := &gdriver{t: t, side: side, cases: cases, seed: seed}
@@ -664,6 +666,21 @@ func (d *gdriver) importCase(c0 *Chain, doc []byte, cp *tmproto.ConsensusParams,
 			d.hit(sigFlag+"/bech32", fmt.Sprintf("flags %v: bech32 precompile missing", fl), where)
 		}
 		d.docVsState(g, s, where)
+		// the custom modules' InitGenesis leaves the accounts and balances of the document as they are (the cpc module
+		// account's sequence advances when the native ERC-20 is deployed)
+		var addrs []common.Address
+		for _, ak := range env.accts {
+			addrs = append(addrs, common.BigToAddress(ak.Addr))
+		}
+		for a, dv := range docViews(t, c0, doc, addrs) {
+			bv := viewAccount(app, ictx, a)
+			if dv.auth != bv.auth && !(a == cpctypes.CpcModuleAddress && fl[0]) {
+				d.hit(sigEnvAuth, fmt.Sprintf("account at %s: the document says %s, after InitChain %s", a, dv.auth, bv.auth), where)
+			}
+			if dv.bank != bv.bank {
+				d.hit(sigEnvBank, fmt.Sprintf("balances at %s: the document says %s, after InitChain %s", a, dv.bank, bv.bank), where)
+			}
+		}
 		if !d.haveK && fl[0] && fl[1] {
 			var natZ *big.Int
 			for _, e := range s.Denoms {
@@ -1043,6 +1060,18 @@ func (d *gdriver) roundCase(ci int, r *Rng) {
 					msg += " (params: " + strings.Join(df, "; ") + ")"
 				}
 				d.hit(sigSecondExport+"/"+m, msg, where)
+			}
+		}
+		// the account environment (x/auth, x/bank sections): B has run no block, its export lists the very same accounts
+		// and balances; the remaining sections are outside the property (histogram only)
+		for m := range g1.canon {
+			if g1.canon[m] == g2.canon[m] || m == "evm" || m == "feemarket" || m == "cpc" || m == "vauth" {
+				continue
+			}
+			if m == "auth" || m == "bank" {
+				d.hit(sigSecondExport+"/"+m, "the export of the re-imported state differs from the first export in section "+m+" (accounts / balances)", where)
+			} else {
+				d.side.Count("other-sections:second export differs in section " + m)
 			}
 		}
 	}
